@@ -5,7 +5,8 @@ import PyatvModel.C06.Sym
 Line protocol (symbolic crypto instance `symCrypto`):
 
   connect <mrp|companion|airplay> <ltpk> <ltsk> <atvId> <clientId> <ownPriv> <ownPub>
-          <pd: b:<hex> | absent | notbytes> <m4: ok | protocol | http | timeout | auth>
+          <pd: b:<hex> | absent | notbytes>
+          <m4: r:<pd> (the M4 envelope) | raise:protocol | raise:http | raise:timeout | raise:auth>
     → `<ok|err:<Class>> keys=<out>/<in>|none trace=<ev>;<ev>;…`   (ev = name:hex:hex…)
   readtlv <hex>   → `err` | `<tag>=<hex>,<tag>=<hex>…` (insertion order; `-` when empty)
   writetlv <tag>=<hex>,…  → hex
@@ -50,13 +51,13 @@ def pd? (s : String) : Option Pd :=
   else if s.startsWith "b:" then (ofHex? (s.drop 2).toString).map Pd.bytes
   else none
 
-def m4? : String → Option (Option RawErr)
-  | "ok" => some none
-  | "protocol" => some (some .protocolError)
-  | "http" => some (some .httpError)
-  | "timeout" => some (some .timeout)
-  | "auth" => some (some (.auth .notAuthenticated))
-  | _ => none
+def m4? (s : String) : Option M4 :=
+  if s == "raise:protocol" then some (.raises .protocolError)
+  else if s == "raise:http" then some (.raises .httpError)
+  else if s == "raise:timeout" then some (.raises .timeout)
+  else if s == "raise:auth" then some (.raises (.auth .notAuthenticated))
+  else if s.startsWith "r:" then (pd? (s.drop 2).toString).map M4.reply
+  else none
 
 def tlvStr (t : Tlv) : String :=
   csv (t.map fun kv => s!"{kv.1.toNat}={toHex kv.2}")
